@@ -299,3 +299,14 @@ Theorem C11_init_boundary_nonvacuous :
   read_init bd_ix bd_actors ["job1"; "job2"; "job3"; "v1_break_0_1"] [doc_tour bd_tour] [("job3", true)] =
     ROk [expected_route bd_tour] ["job3"].
 Proof. exact boundary_nonvacuous. Qed.
+(* finding C11-F8: a REQUIRED break is written as a transit stop (during a drive) or as a `break` activity inside a stop;
+   neither is ever read back: transit stops are refused, and a break activity is matched against the conditional jobs of
+   OPTIONAL breaks only - whatever the rest of the document is *)
+Theorem C11_init_transit_stop_refused : forall ix vid shift a rest added,
+  w_commute a = false -> w_transit a = true -> read_acts ix vid shift (a :: rest) added = inl ETransit.
+Proof. exact transit_stop_refused. Qed.
+Theorem C11_init_break_without_optional_break_refused : forall ix vid shift a rest added,
+  w_commute a = false -> w_transit a = false -> w_type a = "break" ->
+  lookup ix (vjob_id vid "break" shift 1) = None ->
+  read_acts ix vid shift (a :: rest) added = inl ECannotMatchVehicle.
+Proof. exact break_without_optional_break_refused. Qed.
